@@ -25,7 +25,7 @@ META = {
             "generates expressions over the literal grammar (depth<=5, numeric boundary zoo, floats, escaped strings, containers with "
             "repeated keys, chains, keyword arguments, item/attribute access, slices, if-expressions, filters, tests) and templates with "
             "literals in statement heads (if/elif, for, set, with, macro defaults, include/extends/import/from targets, autoescape, "
-            "filter arguments, call blocks), renders all 2^k (k<=6, 64 sampled beyond) hoisting variants on the real engine under the "
+            "filter arguments, call blocks), renders all 2^k (k<=6, 64 sampled beyond (templates: k<=4, 20 sampled beyond)) hoisting variants on the real engine under the "
             "four undefined modes (oracle: identical output / error kind, identical value via compile_expression, template loads), and "
             "compares the real as_const, the LoadConst in the real instruction stream and the real values with the Lean model run on "
             "the real parser's AST.",
@@ -41,7 +41,9 @@ META = {
                   "arithmetic, Ord/==, slices, a dozen builtin filters/tests) are validated by the value correspondence; what is not "
                   "transcribed (inexact powf, NaN ordering, the filters upper/int/round, `is sequence` because lazy iterables are "
                   "dumped as lists) is reported unmodelled (<3% of the expression cases) and covered by the hoisting oracle alone. "
-                  "Statements are covered by the hoisting oracle only (no statement model). Method calls, call of non-global "
+                  "Statements are covered by the hoisting oracle only (no statement model); for every template variant the oracle "
+                  "observes its own rendering, the compiled block table, render_block of every candidate name, the exports and the "
+                  "renderings of consumers that extend/import/include it. Method calls, call of non-global "
                   "callables, splat arguments and depth>5 are outside the box.",
 }
 
@@ -49,6 +51,8 @@ FIELDS = ["key", "ast", "load", "k", "nvar", "lit", "hoist", "diff", "fold", "co
 
 
 def classify(lit, other):
+    if not lit.startswith(("ok", "err", "loaderr", "panic")) or not other.startswith(("ok", "err", "loaderr", "panic")):
+        return "hoist-changes-output"
     if lit.startswith("ok") and other.startswith("ok"):
         return "hoist-changes-output"
     if lit.startswith("ok"):
@@ -157,8 +161,17 @@ def run(r):
         if c["diff"] != "-":
             first = c["diff"].split(";")[0]
             mask, other = first.split("=", 1)
-            r.oracle_failure(key, f"`{src_of(key)}`: all-literal variant gives {c['lit']}, variant with leaves mask {mask} hoisted gives {other}",
-                             classify(c["lit"], other) + ":" + where)
+            la, oa = c["lit"].split("|"), other.split("|")
+            if stmt and len(la) == len(oa) and len(la) > 1:
+                # template observation = own rendering | block table | render_block(..) | exports | consumers
+                j = next(i for i in range(len(la)) if la[i] != oa[i])
+                lit_part, other_part = la[j], oa[j]
+                what_obs = ["rendering", "block names"][j] if j < 2 else lit_part.split("=")[0]
+                r.oracle_failure(key, f"`{src_of(key)}`: {what_obs} differs: all-literal variant {lit_part}, variant with leaves mask {mask} hoisted {other_part}",
+                                 classify(lit_part.split("=", 1)[-1], other_part.split("=", 1)[-1]) + ":" + where + ":" + what_obs.split(".")[0])
+            else:
+                r.oracle_failure(key, f"`{src_of(key)}`: all-literal variant gives {c['lit']}, variant with leaves mask {mask} hoisted gives {other}",
+                                 classify(c["lit"], other) + ":" + where)
         elif c["vallit"] != c["valhoist"]:
             r.oracle_failure(key, f"`{src_of(key)}`: value with literals {c['vallit']} differs from value with variables {c['valhoist']}",
                              "hoist-changes-value:" + where)
